@@ -41,3 +41,19 @@ Qed.
 (* C10 for the standard library itself: a script the validator accepts against it never fails with an undefined variable or a function that is not found *)
 Theorem validated_script_never_unresolved off vars e : check_names (std_env off vars) e = None -> ~ Generic.unresolved (fst (eval_t (std_env off vars) e)).
 Proof. apply validated_never_unresolved, std_env_coherent. Qed.
+
+(* C05 for the standard library itself: its if_then is the standard one and no builtin answers "undefined variable", so optimize preserves the value of every script whose variables are defined *)
+Require Import OptFacts.
+Lemma std_env_call_no_undef off vars : call_no_undef (std_env off vars).
+Proof. exact (proj2 (proj2 (std_env_coherent off vars))). Qed.
+Lemma std_env_if_then off vars : std_if_then_env (std_env off vars).
+Proof.
+  intros c a b v. cbn [call std_env]. unfold std_call.
+  replace (find_builtin (fold_name if_then_name) gen_builtins) with (Some (GPoly 2 1, true)) by (vm_compute; reflexivity).
+  replace (fold_name if_then_name) with if_then_name by (vm_compute; reflexivity).
+  cbn [call_builtin leqb A map Z.to_N Pos.to_nat N.eqb Pos.eqb andb orb if_then_name].
+  destruct c as [cb| | |]; try discriminate. intros H. injection H as <-. exists cb. split; [reflexivity|]. destruct cb; reflexivity.
+Qed.
+Theorem optimize_preserves_script_value off vars k e acc st e' tr v :
+  vars_defined (std_env off vars) e = true -> fst (eval_t (std_env off vars) e) = Ok v -> optimize_t (std_env off vars) k e acc = (st, e', tr) -> fst (eval_t (std_env off vars) e') = Ok v.
+Proof. apply value_preserved; [apply std_env_call_no_undef | apply std_env_if_then]. Qed.
